@@ -370,6 +370,10 @@ FAULTS = {
     "cmd1": dict(point="cmd:1", kind="drop"),
     "cmd2": dict(point="cmd:2", kind="garbage"),
     "reload": dict(point="reload", times=1),
+    # (no "reloadreq": a `reload` command whose connection is closed without an answer is how HAProxy < 2.7 answers a successful
+    #  reload; the controller cannot tell the two apart, so it is not a failure the property speaks about)
+    "shard0cfg": dict(point="file:haproxy5-backend000.cfg"),   # one shard file only: the other changed shards are written
+    "shard1cfg": dict(point="file:haproxy5-backend001.cfg"),
     "reload2": dict(point="reload", times=2),
 }
 
